@@ -58,7 +58,7 @@ def _apply(path, reverse=False):
     return r.returncode == 0, r.stdout[-400:]
 
 
-def _run_rules(pid):
+def _run_rules(pid, witnesses=False):
     """Run the property's rules on the scratch copy; returns (violations, known, n_obligations)."""
     from facts import Program, AnchorMissing
     mod = importlib.import_module(pid.lower())
@@ -71,6 +71,12 @@ def _run_rules(pid):
         rep.anchor_missing("anchor", str(e))
     except Exception as e:      # fail closed, as the real run would
         rep.fail("engine", "exception", f"rule engine raised {type(e).__name__}: {e}")
+    if pid in engine.WITNESSES and witnesses:
+        import witness
+        try:
+            witness.check(rep, engine.WITNESSES[pid][0], pid)
+        except Exception as e:
+            rep.fail("K9", "exception", f"witness runner raised {type(e).__name__}: {e}")
     return rep.violations, rep.known, len(rep.obligations)
 
 
@@ -118,7 +124,7 @@ def run(pid, rep):
                 if not compiled:
                     entry["result"] = "does-not-compile"
                 else:
-                    vio, known, nob = _run_rules(pid)
+                    vio, known, nob = _run_rules(pid, witnesses=(expect or "").startswith("K9"))
                     keys = [v["key"] for v in vio]
                     entry["violations"] = keys[:8]
                     if kind == "refactor":
